@@ -1,5 +1,6 @@
 import MsiProofs.Props.C06
 import MsiProofs.Lemmas.CatalogCodec
+import MsiProofs.Lemmas.CatalogOpen
 /-
 C06, second half — the `_Validation` side and whole tables: the catalog rows `create_table`
 writes for a storable column decode to that column (name, type and width, flags, value range,
@@ -32,5 +33,15 @@ example : ColOk demoCol := by
 
 /-- the precondition is needed: an enumeration value containing `;` does not survive -/
 example : Category.splitOn ';' (List.intercalate [';'] ["a;b".toList]) ≠ ["a;b".toList] := by decide
+
+
+/-- **the catalog pass of `open`, decoded**: if the three catalog streams hold, in any row order,
+the rows `create_table` writes for a name-sorted list of tables with storable columns, `open`'s
+catalog pass returns exactly those tables (plus the two built-in catalog tables) -/
+def openTables_of_catalog := @MsiProofs.CatalogOpen.openTables_of_catalog
+/-- one table from the scanned entries -/
+def decode_table := @MsiProofs.CatalogOpen.decode_table
+/-- the table list is determined by its members: name-sorted lists with the same members are equal -/
+def nameSorted_unique := @MsiProofs.CatalogOpen.nameSorted_unique
 
 end MsiProofs.C06
